@@ -308,9 +308,11 @@ def generate(cls, rng):
                 c[2] = ["str", gen_text(rng)]
             prog.append(c)
         threads.append(prog)
-    kind = rng.choice(["random", "random", "pb", "pct"])
+    kind = rng.choice(["random", "random", "pb", "pct", "pbx", "pbx"])
     if kind == "random":
         strat = dict(kind="random", p=rng.choice([0.01, 0.05, 0.2, 1.0]))
+    elif kind == "pbx":
+        strat = dict(kind="pbx", k=rng.choice([1, 1, 2, 3]))
     elif kind == "pb":
         strat = dict(kind="pb", k=rng.choice([0, 1, 2, 3]),
                      horizon=rng.choice([200, 1000, 4000]))
